@@ -1,5 +1,6 @@
 import Httpcache.Model.Backend
 import Httpcache.Driver.Parse
+import Httpcache.Properties.C17
 /-
 Driver for the backend harness (C14, C15, C17): replays the operation sequence through the map
 model, compares every answer and the file names on disk, and evaluates the C15 / C17 observations.
@@ -19,6 +20,10 @@ structure StoreSt where
   tamperTotal : Nat := 0
   nonUtf8 : Bool := false
   longKey : Bool := false
+  /-- the implementation differs from the model where the property does not say which of them is right -/
+  diff : Option String := none
+
+def setDiff (st : StoreSt) (m : String) : StoreSt := if st.diff.isSome then st else { st with diff := some m }
 
 def setErr (st : StoreSt) (m : String) : StoreSt := if st.err.isSome then st else { st with err := some m }
 
@@ -72,6 +77,14 @@ def storeLine (st : StoreSt) (line : String) : StoreSt :=
   | ["S", "CFG", name, want, got] =>
     if want == got || (want == "notplain" && got != "plain") then st
     else setErr st s!"encryption wiring '{name}': expected {want}, observed {got}"
+  | ["S", "CFGM", kind, p, dk, ek, got] =>
+    let cl (x : String) : String := if x == "-" then "" else x
+    let want := if kind == "option" then C17.withEncryptionClass (cl dk) else C17.fromURLClass (cl p) (cl dk) (cl ek)
+    if want == got then st
+    else if got == "plain" && kind == "dsn" && cl p != "" && cl p != "off" then
+      setErr st s!"a DSN with encrypt={cl p} (encrypt_key: {dk}, environment key: {ek}) opened a store that writes plaintext"
+    else if got == "plain" then setErr st s!"encryption requested by {kind} (key: {dk}, environment key: {ek}) and the store writes plaintext"
+    else setDiff st s!"encryption wiring: {kind} encrypt={p} encrypt_key={dk} environment={ek}: the model (C17.fromURL) says {want}, observed {got}"
   | ["S", "SCAN", k, leak] => if leak == "true" then setErr st s!"a file contains a plaintext fragment of the value of {shw (unhex k)}" else st
   | ["S", "SAMECT", k, same] => if same == "true" then setErr st s!"two writes of the same value of {shw (unhex k)} produced identical file bytes" else st
   | ["S", "TAMPER", "accepted", len, _] => setErr st s!"a modified ciphertext file of {len} bytes was accepted by Get"
